@@ -149,7 +149,8 @@ def controllerRoots : List Nat :=
     translator to the overriders shipped in the library (`SIS`).  A Gaussian filter's step is
     user code (the library ships none); the second group is the interface such a step is written
     against (as in the library's own tests): `prediction().predict`, `correction().freeze_measurements`,
-    `correction().correct`, `step_number()` in the run condition. -/
+    `correction().correct`, `step_number()` in the run condition, and the logging hook `log()` with the
+    `Logger::logger(...)` templates it forwards to (`Logger` is a base class of `FilteringAlgorithm`). -/
 def filterRoots : List Nat :=
   [ name% "FilteringAlgorithm::filtering_recursion",
     name% "GaussianFilter::prediction", name% "GaussianFilter::correction",
@@ -157,7 +158,8 @@ def filterRoots : List Nat :=
     name% "ParticleFilter::initialization", name% "ParticleFilter::prediction", name% "ParticleFilter::correction",
     name% "ParticleFilter::resampling",
     name% "PFPrediction::predict", name% "PFCorrection::correct", name% "PFCorrection::freeze_measurements",
-    name% "FilteringAlgorithm::step_number" ]
+    name% "FilteringAlgorithm::step_number",
+    name% "Logger::log", name% "Logger::logger", name% "Logger::logger_helper" ]
 
 def rootNames : Role → List Nat
   | .controller => controllerRoots
@@ -269,13 +271,6 @@ def spawnSite : Nat × Nat := (name% "FilteringAlgorithm::boot", name% "Filterin
 def Table.wfB (T : Table) : Bool :=
   (T.accesses.all fun a => decide (a.field < T.fields.length) && decide (a.meth < T.methods.length)) &&
   (T.calls.all fun c => decide (c.caller < T.methods.length) && decide (c.callee < T.methods.length))
-
-/-- The six skip flags: plain members written by `skip(…)` on the controller thread and read inside
-    every step on the filtering thread — the known, unfixed defect of C10 (DESIGN.md §8/C10). -/
-def skipFlags : List (Nat × Nat) :=
-  [ (name% "GaussianPrediction", name% "skip_"), (name% "GaussianCorrection", name% "skip_"),
-    (name% "PFPrediction", name% "skip_"), (name% "PFCorrection", name% "skip_"),
-    (name% "StateModel", name% "skip_"), (name% "ExogenousModel", name% "skip_") ]
 
 /-! ## 3. Execution semantics -/
 
